@@ -27,7 +27,7 @@ def _side(g):
     return _random.Random(int(hashlib.sha256(repr(g.getstate()).encode()).hexdigest()[:16], 16))
 
 
-def gen_original(g, name, prefix, others, P=None, p_clock=0.0):
+def gen_original(g, name, prefix, others, P=None, p_clock=0.0, markers=False):
     """p_clock: probability that a frame of the original is left by its own clocks ('timeout T' / 'repeat N' / an explicit
     condition on elapsed or recurred) instead of by a condition on store data; needs the tick period P."""
     side = _side(g)
@@ -52,6 +52,12 @@ def gen_original(g, name, prefix, others, P=None, p_clock=0.0):
                 from flosim.gen import dec
                 text = side.choice(["timeout %s" % dec(side.randint(1, 5) * Fraction(P)), "repeat %d" % side.randint(1, 4),
                                     "go next if elapsed >= %s" % dec(side.randint(1, 5) * Fraction(P)), "timeout %s" % dec(side.randint(1, 3) * Fraction(P))])
+            elif markers and side.random() < 0.2:
+                # (build-time clone plans only: the twin of a run-time plan reuses one copy for successive rears of a statement,
+                # whose marks persist, while every reared clone is a new framer; the two are not comparable on mark state)
+                # a condition on changes of an absolute share since this clone's own mark (every clone has its own marks, also
+                # clones of the same original under different framers)
+                text = "go next if %s is %s%s" % (side.choice(SHARES[:2]), side.choice(["updated", "changed"]), side.choice(["", " in frame", " in frame %s0" % prefix]))
             acts.append({"k": "raw", "ctx": None, "text": text})
         else:
             acts.append({"k": "raw", "ctx": g.choice(["enter", "recur"]), "text": "done me"})
@@ -73,9 +79,9 @@ def gen_original(g, name, prefix, others, P=None, p_clock=0.0):
 def gen_plan(g, periods=("0.125", "0.25"), p_clock=0.25):
     P = g.choice(list(periods))
     ticks = g.randint(8, 30)
-    origs = [gen_original(g, "orig0", "p", [], P, p_clock)]
+    origs = [gen_original(g, "orig0", "p", [], P, p_clock, markers=True)]
     if g.random() < 0.6:
-        origs.append(gen_original(g, "orig1", "q", ["orig0"], P, p_clock))
+        origs.append(gen_original(g, "orig1", "q", ["orig0"], P, p_clock, markers=True))
     names = [o["name"] for o in origs]
     nframes = g.randint(2, 4)
     frames = []
@@ -96,7 +102,11 @@ def gen_plan(g, periods=("0.125", "0.25"), p_clock=0.25):
     for t in range(ticks):
         if g.random() < 0.4:
             env[str(t)] = [[g.choice(SHARES[:2]), "value", g.randint(0, 4)]]
-    return {"P": P, "ticks": ticks, "main": main, "origs": origs, "env": {"0": env}}
+    plan = {"P": P, "ticks": ticks, "main": main, "origs": origs, "env": {"0": env}}
+    if _side(g).random() < 0.35:
+        # a second scheduled framer with clones of the same originals under the same tags ('as mine' numbers them per framer)
+        plan["second"] = [g.choice(names) for _ in range(_side(g).choice([1, 1, 2]))]
+    return plan
 
 
 def gen_rear_plan(g):
@@ -201,8 +211,14 @@ def build_programs(plan):
             out.append({"name": f["name"], "over": f.get("over"), "acts": acts})
         return out
 
+    second = None
+    if plan.get("second"):
+        second = {"name": "fn", "sched": "active", "order": None, "period": None, "first": "n0",
+                  "frames": [{"name": "n0", "over": None, "acts": [{"k": "rec", "ctx": "enter", "tag": "n0.enter"}, {"k": "rec", "ctx": "exit", "tag": "n0.exit"}] +
+                              [{"k": "clone", "orig": o, "as": "mine", "needs": None} for o in plan["second"]]}]}
     A = {"house": "h", "inits": [[s, 0] for s in SHARES],
-         "framers": [dict(plan["main"], frames=a_frames(plan["main"]["frames"]))] + [dict(o, frames=a_frames(o["frames"])) for o in plan["origs"]] + tail(plan["ticks"])}
+         "framers": [dict(plan["main"], frames=a_frames(plan["main"]["frames"]))] + ([dict(second, frames=a_frames(second["frames"]))] if second else []) +
+                    [dict(o, frames=a_frames(o["frames"])) for o in plan["origs"]] + tail(plan["ticks"])}
     copies = []
     counter = [0]
 
@@ -225,7 +241,8 @@ def build_programs(plan):
         return out
 
     bmain = dict(twin_main, frames=b_frames(twin_main["frames"]))
-    B = {"house": "h", "inits": [[s, 0] for s in SHARES], "framers": [bmain] + copies + tail(plan["ticks"])}
+    bsecond = [dict(second, frames=b_frames(second["frames"]))] if second else []
+    B = {"house": "h", "inits": [[s, 0] for s in SHARES], "framers": [bmain] + bsecond + copies + tail(plan["ticks"])}
     return A, B
 
 
@@ -283,7 +300,7 @@ class C12(Check):
                    "whether a razed clone that is 'done' but still entered gets its exit actions is outside this statement (probe razed-while-entered only)",
                    "program B (textual copies as ordinary auxiliaries) is the statement's 'what its original would produce alone'"]
     required_probes = ["insular", "named", "nested", "two-clones-of-one-original", "relative-entry-need", "reared", "razed-all", "razed-first", "razed-last",
-                       "raze-left-others", "raze-spared-non-razeable", "freed-name-taken-again", "dirty-plan", "razed-while-entered", "two-nested-clones-in-one-frame", "nested-named", "clock-driven-original", "raze-inside-original"]
+                       "raze-left-others", "raze-spared-non-razeable", "freed-name-taken-again", "dirty-plan", "razed-while-entered", "two-nested-clones-in-one-frame", "nested-named", "clock-driven-original", "raze-inside-original", "clones-under-two-framers", "marker-condition-in-original"]
     quick_runs = 3000
     thorough_runs = 150000
     shrink_fields = []
@@ -318,6 +335,10 @@ class C12(Check):
         text = repr(plan)
         if "'text': 'timeout " in text or "'text': 'repeat " in text:
             out.probe("clock-driven-original")
+        if plan.get("second"):
+            out.probe("clones-under-two-framers")
+        if " is updated" in text or " is changed" in text:
+            out.probe("marker-condition-in-original")
         if any(a.get("text", "").startswith("raze ") for o in plan["origs"] for f in o["frames"] for a in f["acts"]):
             out.probe("raze-inside-original")
         for key, probe in (("'as': 'mine'", "insular"), ("'as': 'nc", "named"), ("'as': 'nr", "named"), ("'as': 'kd", "nested-named")):
